@@ -25,7 +25,9 @@
  *   GRAMSIM_CLOCK_STEP=<ns>  returns <sec> plus <ns> times the number of earlier calls; when
  *                            GRAMSIM_CLOCK is absent the real clock is used (never the case
  *                            under the simulator)
- *   GRAMSIM_PID=<n>          value returned by getpid()
+ *   GRAMSIM_PID=<n>          value returned by getpid(); gettid() returns <n> + k for the k-th
+ *                            thread that asks (the Rust runtime prints the thread id in its
+ *                            panic and stack-overflow banners)
  *   GRAMSIM_STALL=<a,b,c,..> stall the k-th thread the process creates by that many microseconds
  *                            before its start routine runs ("slow or stalled node"): gram itself
  *                            creates one thread and joins it, so this changes nothing on the
@@ -94,6 +96,8 @@ static uint64_t splitmix(uint64_t *s) {
 static void set_key_hex(const char *k);
 static void set_stalls(const char *list);
 static void set_lingers(const char *list);
+static __thread int tid_index;
+static int tid_next;
 
 static void init_once(void) {
     if (ready) return;
@@ -281,6 +285,8 @@ static void forkserver(char **argv) {
                 eintr_left = p_eintr; no_insecure = (int)p_noinsecure; chunk = (size_t)p_chunk;
                 clock_owned = have_clock; clock_base = p_clock; clock_step = p_step; clock_reads = 0;
                 fake_pid = p_pid;
+                tid_next = 0;
+                tid_index = -1;
                 set_stalls(stall_list);
                 set_lingers(linger_list);
                 log_fd = log_path[0] ? open(log_path, O_WRONLY | O_CREAT | O_APPEND | O_CLOEXEC, 0644) : -1;
@@ -463,4 +469,17 @@ int pthread_create(pthread_t *thread, const pthread_attr_t *attr, void *(*start)
         while (nanosleep(&ts, &ts) != 0 && errno == EINTR) {}
     }
     return rc;
+}
+
+/* Thread identity: the first thread that asks is <pid>, the next <pid>+1, ... */
+#include <sys/syscall.h>
+static __thread int tid_index = -1;
+static int tid_next = 0;
+
+pid_t gettid(void) {
+    init_once();
+    if (!fake_pid) return (pid_t)syscall(SYS_gettid);
+    if (tid_index < 0) tid_index = __atomic_fetch_add(&tid_next, 1, __ATOMIC_SEQ_CST);
+    log_mark("P\n");
+    return (pid_t)(fake_pid + tid_index);
 }
